@@ -156,15 +156,17 @@ def py_e2e_spec(case, t, e):
         return out
     want = py_wanted(S, body)
     demanded = funcs_of(r for _i, _n, r in want) | own
-    # what the known defects leave: sub-package names missing from the selection, only plain
-    # methods of classes; [old]: additionally one surviving binding per import statement
-    # (the repaired multi-name defect, kept as a labelled regression shape)
+    # shapes of the known / repaired defects, most specific explanation first:
+    #  E1 only plain methods of classes are registered (known: C09-wrapped-methods-of-imported-classes)
+    #  E2 + sub-package names missing from the selection (repaired, fee45a8)
+    #  E3 + one surviving binding per import statement (repaired, e92fb9a)
     want_ns = py_wanted(S_nosub, body)
     survivors = {}
     for i, _n, real in want_ns:
         survivors[i] = real
-    buggy = funcs_of((r for _i, _n, r in want_ns), drop_wrapped=True) | own
-    buggy_old = funcs_of(survivors.values(), drop_wrapped=True) | own
+    e1 = funcs_of((r for _i, _n, r in want), drop_wrapped=True) | own
+    e2 = funcs_of((r for _i, _n, r in want_ns), drop_wrapped=True) | own
+    e3 = funcs_of(survivors.values(), drop_wrapped=True) | own
     if case['imports'] and full:
         upper = set(demanded)
         for n, _a, _i in py_all_bindings(body):
@@ -177,17 +179,20 @@ def py_e2e_spec(case, t, e):
             return base_keys == x and not outside
     if matches(demanded):
         return []
-    if not matches(buggy) and not matches(buggy_old):
+    missing = demanded - base_keys
+    if matches(e1):
+        miss_sub, miss_multi, miss_wrapped = set(), set(), missing
+    elif matches(e2):
+        miss_sub = missing & (demanded - (funcs_of(r for _i, _n, r in want_ns) | own))
+        miss_multi, miss_wrapped = set(), missing - miss_sub
+    elif matches(e3):
+        miss_sub = missing & (demanded - (funcs_of(r for _i, _n, r in want_ns) | own))
+        miss_multi = (missing - miss_sub) & (funcs_of(r for _i, _n, r in want_ns) - funcs_of(survivors.values()))
+        miss_wrapped = missing - miss_sub - miss_multi
+    else:
         return [('profiled functions %s differ from the demanded %s (outside the project: %s)'
                  % (sorted(base_keys), sorted(demanded), outside[:3]), None)]
     fails = []
-    missing = demanded - base_keys
-    miss_sub = missing & (demanded - (funcs_of(r for _i, _n, r in want_ns) | own))
-    if matches(buggy):
-        miss_multi = set()          # every selected binding of every statement is registered
-    else:
-        miss_multi = (missing - miss_sub) & (funcs_of(r for _i, _n, r in want_ns) - funcs_of(survivors.values()))
-    miss_wrapped = missing - miss_sub - miss_multi
     if miss_sub:
         fails.append(('members of a sub-package __init__ of a selected package missing from the stats: %s'
                       % sorted(miss_sub), F_SUBPKG))
